@@ -379,4 +379,13 @@ theorem coreRef_ne_nil (τ : Nat) (t r : List Int) (h : coreRef τ t = some r) :
   subst this
   simp at hm
 
+theorem mapM_some_mem_opt {α β : Type} (g : α → Option β) (l : List α) (r : List β)
+    (h : l.mapM g = some r) : ∀ q ∈ r, ∃ t ∈ l, g t = some q := by
+  obtain ⟨h1, h2⟩ := (mapM_eq_some_opt g l r).mp h
+  intro q hq
+  obtain ⟨i, hi, rfl⟩ := List.mem_iff_getElem.mp hq
+  have hi' : i < l.length := by omega
+  refine ⟨l[i], List.getElem_mem hi', ?_⟩
+  rw [h2 i hi', List.getElem?_eq_getElem hi]
+
 end MsmVerif.Coring
